@@ -34,6 +34,14 @@ RULE = (
     "ground truths of one label with no estimate of that label / perfect / random) so that a label is missed in one frame and "
     "detected in another, the scene Map recomputed from the frame results the manager holds (pooled lists, summed ground-truth "
     "counts), asked twice, frames re-read afterwards; rank2d: 2-D objects. "
+    "Thresholds: per-label values that differ between labels, integer-typed numbers, and in a quarter of the lists values at "
+    "the ends of the scale (float('inf') / 1e300 / 1e-300 / 5e-324 / 0 for the distances, 0 / 5e-324 / 1e-300 / 1 for the "
+    "IoUs; values outside [0,1] incl. inf for the IoU error path). Dicts: in 60% of the map / score cases the two per-label "
+    "dicts handed to Map / evaluate_detection are built another way than divide_objects(x, target_labels) builds them: keys "
+    "permuted (each dict independently), extra non-target keys, divide_objects() without target labels (first-occurrence "
+    "order; missing labels filled in or left out -> KeyError); each label's AP is then checked against THAT label's entry. "
+    "Label lists: in half of the manager cases the critical-object filter and the pass/fail config list the evaluation "
+    "config's labels in another order (evaluate_frame keys the frame-level dicts by the filter's list). "
     "Non-trivial = at least one result; distinct = distinct canonical JSON of the case."
 )
 THEOREMS = [
@@ -43,6 +51,9 @@ THEOREMS = [
         "aph_le_ap", "ap_in_unit_interval", "ap_one_of_perfect", "ap_zero_of_no_tp", "map_mean_of_defined", "map_bounds",
         "map_undefined_iff", "sort_perm", "sort_sorted", "sort_stable", "sort_idem", "tp_le_gt_of_one_to_one",
         "tp_list_eq_cumsum", "ignored_counts_as_rank",
+        # PEval/Properties/C04Dict.lean: Map reads its dicts by key, label lists in any order, float("inf") as a threshold
+        "map_reads_dicts_by_key", "map_dict_order_irrelevant", "frame_map_label_order_irrelevant",
+        "ap_inf_as_large_number", "map_inf_as_large_number", "map_ext_agrees_on_numbers",
     ]
 ] + [
     # composition with the matcher model (PEval/Properties/Pipeline.lean): the one-to-one hypothesis of the bounds is
@@ -69,6 +80,48 @@ ASSUMPTIONS = [
 LABELS = ["unknown", "false_positive", "car", "bicycle", "pedestrian", "motorbike", "truck", "bus"]
 LID = {n: i for i, n in enumerate(LABELS)}
 MODES = ["center", "plane", "iou2d", "iou3d"]
+
+# ---- threshold values.  float("inf") is a legal threshold (the validators accept any Real; it is the loosest distance
+# threshold and, like every value outside [0,1], rejected by the IoU modes' assertion).  In a case it is spelled "inf" so
+# that cases stay plain JSON; `tf` gives the value handed to the real code, `tq` the protocol spelling for the model.
+INF = "inf"
+EXTREME = {  # legal but rarely written values, per mode
+    "center": [INF, 1e300, 1e-300, 5e-324, 0.0], "plane": [INF, 1e300, 1e-300, 5e-324, 0.0],
+    "iou2d": [0.0, 1.0, 5e-324, 1e-300], "iou3d": [0.0, 1.0, 5e-324, 1e-300],
+}
+OUTSIDE_IOU = [1.5, -0.125, INF, 1e300]  # not in [0,1]: AssertionError as soon as a result reaches is_better_than
+
+
+def tf(t):
+    return float("inf") if t == INF else t
+
+
+def tfl(ts):
+    return [tf(t) for t in ts]
+
+
+def _isinf(t):
+    return isinstance(t, float) and math.isinf(t)
+
+
+def spell(t):
+    """case spelling of a threshold value"""
+    return INF if _isinf(t) else t
+
+
+def tq(t):
+    t = tf(t)
+    return INF if _isinf(t) else core.q(t)
+
+
+def _frac(t):
+    """exact value of a threshold for the oracle (float inf stays: Fraction < inf compares as expected)"""
+    t = tf(t)
+    return t if _isinf(t) else Fraction(t)
+
+
+def iou_valid(ts):
+    return all(0.0 <= tf(t) <= 1.0 for t in ts)
 
 # ----------------------------------------------------------------------------- real objects (cached)
 
@@ -274,7 +327,7 @@ def tp_by_text(d, mode, label, thr):
         return None
     if s is None:
         return False
-    return compatible(d["p"], el, gl) and beats(mode, Fraction(s), Fraction(thr))
+    return compatible(d["p"], el, gl) and beats(mode, Fraction(s), _frac(thr))
 
 
 # ----------------------------------------------------------------------------- generators
@@ -360,6 +413,7 @@ def _long_case(rng, nmax):
         thrs = [rng.choice([0.5, 1.0, 1.25, 2.0, 3.0]) for _ in targets]
     else:
         thrs = [rng.choice([0.0, 0.125, 0.3, 0.5, 0.75, 1.0]) for _ in targets]
+    thrs = _extremes(rng, mode, thrs)
     levels = rng.choice([2, 3, 5, 8, 16])
     offs = [[0.0, 0.0, 0.0], [0.5, 0.0, 0.0], [0.75, 1.0, 0.0], [1.0, 0.0, 0.0], [0.0, 1.0, 0.0], [1.5, 2.0, 0.0],
             [0.25, 0.25, 0.0], [0.0, 0.0, 0.5], [2.0, 1.0, 0.25], [4.0, 0.0, 0.0]]
@@ -409,15 +463,53 @@ def _scene(rng, targets, nmax=6):
     return {"est": ests, "gt": gts}
 
 
+def _extremes(rng, mode, t, p=0.25):
+    """with probability p one or two entries of the list become an extreme but legal value of the mode (EXTREME)"""
+    t = list(t)
+    if t and rng.random() < p:
+        for _ in range(rng.choice([1, 1, 2])):
+            t[rng.randrange(len(t))] = rng.choice(EXTREME[mode])
+    return t
+
+
 def _thr(rng, mode, n, allow_bad=False):
     # integer-typed numbers are legal thresholds (set_thresholds accepts any Real): 1 instead of 1.0 in a fifth of the lists
     as_int = (lambda v: int(v) if float(v).is_integer() else v) if rng.random() < 0.2 else (lambda v: v)
     if mode in ("center", "plane"):
-        return [as_int(rng.choice([0.5, 1.0, 1.25, 2.0, 3.0])) for _ in range(n)]
-    t = [as_int(rng.choice([0.0, 0.125, 0.3, 0.5, 0.75, 1.0])) for _ in range(n)]
+        return _extremes(rng, mode, [as_int(rng.choice([0.5, 1.0, 1.25, 2.0, 3.0])) for _ in range(n)])
+    t = _extremes(rng, mode, [as_int(rng.choice([0.0, 0.125, 0.3, 0.5, 0.75, 1.0])) for _ in range(n)])
     if allow_bad and rng.random() < 0.08:
-        t[rng.randrange(n)] = rng.choice([1.5, -0.125])
+        t[rng.randrange(n)] = rng.choice(OUTSIDE_IOU)
     return t
+
+
+def _dict_spec(rng):
+    """how the two per-label dicts handed to Map / MetricsScore.evaluate_detection are built: by divide_objects with the
+    target labels (`free` False) or without (`free` True: keys in order of first occurrence, non-target estimate labels get
+    their own keys; `fill` adds the target labels that did not occur), extra non-target keys, and the insertion order of the
+    keys of each dict (None = as built, "rev" = reversed, else the seed of a permutation; the two dicts are permuted
+    independently)"""
+    r = rng.random()
+    if r < 0.4:
+        return None  # the plain call
+    free = rng.random() < 0.3
+    return {"free": free, "fill": (not free) or rng.random() < 0.85,
+            "extra": rng.choice([[], [], ["truck"], ["unknown", "bus"]]),
+            "rperm": rng.choice([None, rng.randrange(1 << 16), rng.randrange(1 << 16)]),
+            "nperm": rng.choice([None, rng.randrange(1 << 16), rng.randrange(1 << 16)])}
+
+
+def _label_orders(rng, targets):
+    """label lists of the critical-object filter and of the pass/fail config: the evaluation config's labels, in half of the
+    cases in another order (the frame-level dicts are keyed by the filter's list, Map walks the evaluation config's list)"""
+    crit, pf = list(targets), list(targets)
+    if len(targets) > 1 and rng.random() < 0.5:
+        rng.shuffle(crit)
+        if rng.random() < 0.5:
+            pf = list(crit)
+        else:
+            rng.shuffle(pf)
+    return crit, pf
 
 
 def _map_case(rng, via):
@@ -434,6 +526,11 @@ def _map_case(rng, via):
     else:  # manager: frame level for every frame, then the scene
         case.update(fam={m: [_thr(rng, m, k) for _ in range(rng.randint(0, 1) if m != "center" else 1)] for m in MODES},
                     frames=[_scene(rng, targets, 5) for _ in range(rng.randint(1, 3))])
+        case["crit"], case["pf"] = _label_orders(rng, targets)
+    if via in ("map", "score"):
+        d = _dict_spec(rng)
+        if d:
+            case["dict"] = d
     return case
 
 
@@ -522,7 +619,9 @@ def _scene_case(rng, nframes=None, shapes=None, targets=None, policy=None):
         # the other labels get their own missed / ghost frames too
         frames.append(_shaped_frame(rng, targets, sh, L if rng.random() < 0.7 else rng.choice(targets)))
     fam = {m: [_thr(rng, m, len(targets)) for _ in range(1 if m == "center" else (1 if rng.random() < 0.25 else 0))] for m in MODES}
-    return {"kind": "map", "via": "manager", "scene": True, "targets": targets, "policy": policy, "fam": fam, "frames": frames}
+    crit, pf = _label_orders(rng, targets)
+    return {"kind": "map", "via": "manager", "scene": True, "targets": targets, "policy": policy, "fam": fam, "frames": frames,
+            "crit": crit, "pf": pf}
 
 
 def _scene_corpus():
@@ -556,6 +655,45 @@ def _scene_corpus():
     return cs
 
 
+def _order_corpus():
+    """hand-written: two labels whose thresholds differ (cars 1 m off pass 2.0, pedestrians 0.5 m off fail 0.125), the dicts /
+    the label lists of the cooperating configs in another order; and thresholds at the ends of each mode's scale"""
+    def o(lab, x, y, c, i, ge):
+        return {"l": lab, "x": x, "y": y, "z": 0.0, "k": 0, "c": c, "id": i, "ge": ge}
+
+    gts = [o("car", 10.0, 0.0, 1.0, 0, "g"), o("car", 20.0, 10.0, 1.0, 1, "g"), o("pedestrian", 0.0, 10.0, 1.0, 2, "g"),
+           o("pedestrian", 0.0, 20.0, 1.0, 3, "g")]
+    ests = [o("car", 11.0, 0.0, 0.875, 0, "e"), o("car", 21.0, 10.0, 0.75, 1, "e"), o("pedestrian", 0.5, 10.0, 0.625, 2, "e"),
+            o("pedestrian", 0.5, 20.0, 0.5, 3, "e")]
+    fr = {"est": ests, "gt": gts}
+    tg = ["car", "pedestrian"]
+    cs = []
+    for spec in ({"free": False, "fill": True, "extra": [], "rperm": "rev", "nperm": "rev"},
+                 {"free": False, "fill": True, "extra": [], "rperm": "rev", "nperm": None},
+                 {"free": False, "fill": True, "extra": ["truck"], "rperm": None, "nperm": "rev"},
+                 {"free": True, "fill": True, "extra": [], "rperm": "rev", "nperm": "rev"},
+                 {"free": True, "fill": False, "extra": ["bus"], "rperm": "rev", "nperm": None}):
+        cs.append({"kind": "map", "via": "map", "targets": tg, "policy": "DEFAULT", "mode": "center", "thrs": [2.0, 0.125],
+                   "frames": [fr], "dict": spec})
+    cs.append({"kind": "map", "via": "score", "targets": tg, "policy": "DEFAULT",
+               "fam": {"center": [[2.0, 0.125], [0.5, 1.0]], "plane": [[3.0, 0.25]], "iou2d": [[0.125, 0.75]], "iou3d": []},
+               "frames": [fr], "dict": {"free": False, "fill": True, "extra": [], "rperm": "rev", "nperm": "rev"}})
+    for crit, pf in ((["pedestrian", "car"], ["pedestrian", "car"]), (["pedestrian", "car"], tg), (tg, ["pedestrian", "car"])):
+        cs.append({"kind": "map", "via": "manager", "targets": tg, "policy": "DEFAULT",
+                   "fam": {"center": [[2.0, 0.125], [0.5, 1.0]], "plane": [[3.0, 0.25]], "iou2d": [], "iou3d": [[0.125, 0.75]]},
+                   "frames": [fr, {"est": ests[:3], "gt": gts[1:]}], "crit": crit, "pf": pf})
+    # the ends of the scales
+    for mode in MODES:
+        lists = ([[INF, INF], [INF, 0.125], [1e300, 5e-324], [1e-300, 0.0], [0.0, INF]] if mode in ("center", "plane")
+                 else [[0.0, 1.0], [5e-324, 1e-300], [1.0, 0.0], [INF, 0.5], [0.5, 1e300]])
+        for t in lists:
+            cs.append({"kind": "map", "via": "map", "targets": tg, "policy": "DEFAULT", "mode": mode, "thrs": t, "frames": [fr]})
+    cs.append({"kind": "map", "via": "manager", "targets": tg, "policy": "DEFAULT",
+               "fam": {"center": [[INF, 5e-324]], "plane": [[1e300, INF]], "iou2d": [[0.0, 1.0]], "iou3d": [[5e-324, 1e-300]]},
+               "frames": [fr], "crit": ["pedestrian", "car"], "pf": tg})
+    return cs
+
+
 def _rank2d_case(rng):
     n = rng.randint(1, 6)
     mode = rng.choice(["center", "iou2d", "iou3d", "plane"])
@@ -568,6 +706,7 @@ def _rank2d_case(rng):
         rg = None if noroi else [100 * i, 50, 20, 10]
         items.append({"twod": True, "id": i, "e": e, "g": g, "re": re_, "rg": rg, "c": rng.randint(1, 4) / 4, "p": "DEFAULT"})
     thr = rng.choice([1.0, 3.0, 10.0]) if mode in ("center", "plane") else rng.choice([0.0, 0.5, 0.75])
+    thr = _extremes(rng, mode, [thr], 0.15)[0]
     return {"kind": "rank", "twod": True, "items": items, "G": rng.randint(0, n + 1), "mode": mode, "targets": ["car"], "thrs": [thr]}
 
 
@@ -598,6 +737,7 @@ def corpus():
     it = _realise("T", r, 0, 0.5, True)
     cs.append({"kind": "rank", "items": [it], "G": 1, "mode": "center", "targets": ["bicycle", "car"], "thrs": [1.0]})
     cs.extend(_scene_corpus())
+    cs.extend(_order_corpus())
     return cs
 
 
@@ -645,7 +785,7 @@ def _run_ap(tm, case, rs):
     E = env()
     try:
         arg = [list(x) for x in rs] if "nested" in case else list(rs)
-        a = E["Ap"](tm, arg, case["G"], [E["LAB"][t] for t in case["targets"]], E["MODE"][case["mode"]], list(case["thrs"]))
+        a = E["Ap"](tm, arg, case["G"], [E["LAB"][t] for t in case["targets"]], E["MODE"][case["mode"]], tfl(case["thrs"]))
         return ap_out(a)
     except Exception as e:
         return {"err": type(e).__name__}
@@ -664,8 +804,8 @@ def _manager(targets, fam, policy):
         "evaluation_task": "detection", "target_labels": list(targets), "max_x_position": 200.0, "max_y_position": 200.0,
         "min_point_numbers": [0] * len(targets), "label_prefix": "autoware", "merge_similar_labels": False,
         "allow_matching_unknown": policy != "DEFAULT", "matching_label_policy": policy,
-        "center_distance_thresholds": fam["center"], "plane_distance_thresholds": fam["plane"],
-        "iou_2d_thresholds": fam["iou2d"], "iou_3d_thresholds": fam["iou3d"],
+        "center_distance_thresholds": [tfl(t) for t in fam["center"]], "plane_distance_thresholds": [tfl(t) for t in fam["plane"]],
+        "iou_2d_thresholds": [tfl(t) for t in fam["iou2d"]], "iou_3d_thresholds": [tfl(t) for t in fam["iou3d"]],
     }
     d = {k: v for k, v in d.items() if v != []}
     cfg = PerceptionEvaluationConfig(dataset_paths=[str(core.REPO / "perception_eval/test/sample_data")], frame_id="base_link",
@@ -697,6 +837,38 @@ def _mode_name(mm):
             return k
 
 
+def _build_dicts(case, res, gts, targets):
+    """the two per-label dicts handed to the real Map / evaluate_detection, built as `case["dict"]` says (see _dict_spec)"""
+    import random
+
+    E = env()
+    spec = case.get("dict")
+    if not spec:
+        return E["divide_objects"](res, targets), E["divide_objects_to_num"](gts, targets)
+    tl = None if spec["free"] else targets
+    rd = E["divide_objects"](res, tl)
+    nd = E["divide_objects_to_num"](gts, tl)
+    if spec["fill"]:
+        for t in targets:
+            rd.setdefault(t, [])
+            nd.setdefault(t, 0)
+    for x in spec["extra"]:
+        rd.setdefault(E["LAB"][x], [])
+        nd.setdefault(E["LAB"][x], 0)
+
+    def perm(d, seed):
+        if seed is None:
+            return d
+        ks = list(d.keys())
+        if seed == "rev":
+            ks.reverse()
+        else:
+            random.Random(seed).shuffle(ks)
+        return {k: d[k] for k in ks}
+
+    return perm(rd, spec["rperm"]), perm(nd, spec["nperm"])
+
+
 def run_impl(case):
     E = env()
     if case["kind"] == "rank":
@@ -717,21 +889,30 @@ def run_impl(case):
             ests = [mk_obj(o) for o in fr["est"]]
             gts = [mk_obj(o) for o in fr["gt"]]
             res = E["get_object_results"](E["EvaluationTask"].DETECTION, ests, gts, targets, pol)
-            out = {"frames": [{"res": [describe(r) for r in res], "gts": [LID[g.semantic_label.label.value] for g in gts]}]}
-            rd = E["divide_objects"](res, targets)
-            nd = E["divide_objects_to_num"](gts, targets)
-            if via == "map":
-                m = E["Map"](rd, nd, targets, E["MODE"][case["mode"]], list(case["thrs"]))
-                out["maps"] = [_map_out(m, case["mode"], case["thrs"])]
-            else:
-                fam = case["fam"]
-                cfg = E["MetricsScoreConfig"](
-                    E["EvaluationTask"].DETECTION, target_labels=targets,
-                    center_distance_thresholds=fam["center"] or None, plane_distance_thresholds=fam["plane"] or None,
-                    iou_2d_thresholds=fam["iou2d"] or None, iou_3d_thresholds=fam["iou3d"] or None)
-                ms = E["MetricsScore"](cfg, used_frame=[0])
-                ms.evaluate_detection(rd, nd)
-                out["maps"] = [_map_out(m, _mode_name(m.matching_mode), m.matching_threshold_list) for m in ms.maps]
+            descs = [describe(r) for r in res]
+            out = {"frames": [{"res": descs, "gts": [LID[g.semantic_label.label.value] for g in gts]}]}
+            try:
+                rd, nd = _build_dicts(case, res, gts, targets)
+                if case.get("dict"):
+                    # the dicts as handed over, in insertion order: [[label id, descriptors]], [[label id, count]]
+                    by = {id(r): d for r, d in zip(res, descs)}
+                    out["rd"] = [[LID[k.value], [by[id(r)] for r in v]] for k, v in rd.items()]
+                    out["nd"] = [[LID[k.value], int(v)] for k, v in nd.items()]
+                if via == "map":
+                    thrs = tfl(case["thrs"])
+                    m = E["Map"](rd, nd, targets, E["MODE"][case["mode"]], list(thrs))
+                    out["maps"] = [_map_out(m, case["mode"], thrs)]
+                else:
+                    fam = {k: [tfl(t) for t in v] for k, v in case["fam"].items()}
+                    cfg = E["MetricsScoreConfig"](
+                        E["EvaluationTask"].DETECTION, target_labels=targets,
+                        center_distance_thresholds=fam["center"] or None, plane_distance_thresholds=fam["plane"] or None,
+                        iou_2d_thresholds=fam["iou2d"] or None, iou_3d_thresholds=fam["iou3d"] or None)
+                    ms = E["MetricsScore"](cfg, used_frame=[0])
+                    ms.evaluate_detection(rd, nd)
+                    out["maps"] = [_map_out(m, _mode_name(m.matching_mode), m.matching_threshold_list) for m in ms.maps]
+            except Exception as e:
+                out["err"] = type(e).__name__
             return out
         # ---- the real manager
         from perception_eval.common.dataset import FrameGroundTruth
@@ -739,9 +920,10 @@ def run_impl(case):
         from perception_eval.evaluation.result.perception_frame_config import CriticalObjectFilterConfig, PerceptionPassFailConfig
 
         cfg, mgr = _manager(case["targets"], case["fam"], case["policy"])
-        crit = CriticalObjectFilterConfig(cfg, list(case["targets"]), max_x_position_list=[150.0] * len(targets),
+        # the filter / pass-fail configs may list the same labels in another order than the evaluation config
+        crit = CriticalObjectFilterConfig(cfg, list(case.get("crit") or case["targets"]), max_x_position_list=[150.0] * len(targets),
                                           max_y_position_list=[150.0] * len(targets))
-        pf = PerceptionPassFailConfig(cfg, list(case["targets"]), matching_threshold_list=[2.0] * len(targets))
+        pf = PerceptionPassFailConfig(cfg, list(case.get("pf") or case["targets"]), matching_threshold_list=[2.0] * len(targets))
         out = {"frames": [], "frame_maps": []}
         for i, fr in enumerate(case["frames"]):
             ests = [mk_obj(o) for o in fr["est"]]
@@ -766,18 +948,22 @@ def run_impl(case):
 
 # ----------------------------------------------------------------------------- the model
 
+def _map_req(case, out, mode, thrs):
+    """the model request for one Map of a single-frame case: on the dicts as handed over, or on the frame's result list"""
+    tg = [LID[t] for t in case["targets"]]
+    if "rd" in out:
+        return {"op": "mapdict", "mode": mode, "is2d": False, "targets": tg, "thrs": [tq(t) for t in thrs],
+                "buckets": [[k, [[model_res(d, mode) for d in v]]] for k, v in out["rd"]], "nums": out["nd"]}
+    fr = out["frames"][0]
+    return {"op": "map", "mode": mode, "is2d": False, "scene": False, "targets": tg, "thrs": [tq(t) for t in thrs],
+            "frames": [{"results": [model_res(d, mode) for d in fr["res"]], "gts": fr["gts"]}]}
+
+
 def model_requests(case, out):
-    if "err" in out and "res" not in out and "frames" not in out:
-        # the whole evaluation raised before any observable was produced; re-derive the inputs for the model
-        if case["kind"] == "map" and case["via"] == "map":
-            E = env()
-            targets = [E["LAB"][t] for t in case["targets"]]
-            fr = case["frames"][0]
-            res = E["get_object_results"](E["EvaluationTask"].DETECTION, [mk_obj(o) for o in fr["est"]], [mk_obj(o) for o in fr["gt"]],
-                                         targets, E["MatchingLabelPolicy"][case["policy"]])
-            frames = [{"results": [model_res(describe(r), case["mode"]) for r in res], "gts": [LID[o["l"]] for o in fr["gt"]]}]
-            return [{"op": "map", "mode": case["mode"], "is2d": False, "scene": False, "targets": [LID[t] for t in case["targets"]],
-                     "thrs": [core.q(t) for t in case["thrs"]], "frames": frames}]
+    if "err" in out and "maps" not in out and case["kind"] == "map":
+        # the evaluation raised; for a direct Map call the model is asked for the same exception
+        if case["via"] == "map" and "frames" in out and ("rd" in out or not case.get("dict")):
+            return [_map_req(case, out, case["mode"], case["thrs"])]
         return []
     if case["kind"] == "rank":
         ds = [model_res(d, case["mode"]) for d in out["res"]]
@@ -787,22 +973,22 @@ def model_requests(case, out):
         else:
             nested = [ds]
         return [{"op": "ap", "mode": case["mode"], "targets": [LID[t] for t in case["targets"]],
-                 "thrs": [core.q(t) for t in case["thrs"]], "G": case["G"], "results": nested}]
+                 "thrs": [tq(t) for t in case["thrs"]], "G": case["G"], "results": nested}]
     reqs = []
     tg = [LID[t] for t in case["targets"]]
     if case["via"] == "manager":
+        crit = [LID[t] for t in (case.get("crit") or case["targets"])]  # the label list that keys the frame-level dicts
         for fr, maps in zip(out["frames"], out["frame_maps"]):
             for m in maps:
-                reqs.append({"op": "map", "mode": m["mode"], "is2d": False, "scene": False, "targets": tg, "thrs": [core.q(t) for t in m["thrs"]],
+                reqs.append({"op": "map", "mode": m["mode"], "is2d": False, "scene": False, "targets": tg, "crit": crit,
+                             "thrs": [tq(t) for t in m["thrs"]],
                              "frames": [{"results": [model_res(d, m["mode"]) for d in fr["res"]], "gts": fr["gts"]}]})
         for m in out["maps"]:
-            reqs.append({"op": "map", "mode": m["mode"], "is2d": False, "scene": True, "targets": tg, "thrs": [core.q(t) for t in m["thrs"]],
+            reqs.append({"op": "map", "mode": m["mode"], "is2d": False, "scene": True, "targets": tg, "thrs": [tq(t) for t in m["thrs"]],
                          "frames": [{"results": [model_res(d, m["mode"]) for d in fr["res"]], "gts": fr["gts"]} for fr in out["frames"]]})
         return reqs
     for m in out["maps"]:
-        fr = out["frames"][0]
-        reqs.append({"op": "map", "mode": m["mode"], "is2d": False, "scene": False, "targets": tg, "thrs": [core.q(t) for t in m["thrs"]],
-                     "frames": [{"results": [model_res(d, m["mode"]) for d in fr["res"]], "gts": fr["gts"]}]})
+        reqs.append(_map_req(case, out, m["mode"], m["thrs"]))
     return reqs
 
 
@@ -948,14 +1134,29 @@ def _oracle_bucket(tag, descs, G, label, mode, thr, ap, aph):
     return None
 
 
-def _oracle_map(tag, m, frames, targets, scene):
-    """m real Map output; frames = [{"res": descs, "gts": label ids}]"""
+def _given(out):
+    """the per-label results and ground-truth counts a dict-driven case handed to the real code: {label: (descs, G)};
+    None if a target label was missing from a dict (outside the property: the call has no defined value)"""
+    if "rd" not in out:
+        return None
+    rd = {LABELS[k]: v for k, v in out["rd"]}
+    nd = {LABELS[k]: v for k, v in out["nd"]}
+    return rd, nd
+
+
+def _oracle_map(tag, m, frames, targets, scene, given=None):
+    """m real Map output; frames = [{"res": descs, "gts": label ids}]; given = the dicts handed to Map (dict-driven cases):
+    each label's AP is then a statement about that label's entry — whatever the order of the keys"""
     tnames = list(targets)
     aps = []
+    if given is not None and any(t not in given[0] or t not in given[1] for t in tnames):
+        return None
     for li, (lab, thr) in enumerate(zip(tnames, m["thrs"])):
         bucket = []
         G = 0
-        for fr in frames:
+        if given is not None:
+            bucket, G = list(given[0][lab]), given[1][lab]
+        for fr in (frames if given is None else []):
             for d in fr["res"]:
                 el = LABELS[d["l"]]
                 if el in tnames:
@@ -1169,7 +1370,7 @@ def oracle(case, out):
                 return f
         return _oracle_scene(case, out)
     for j, m in enumerate(out["maps"]):
-        f = _oracle_map(f"map[{j}:{m['mode']}]", m, out["frames"], tg, False)
+        f = _oracle_map(f"map[{j}:{m['mode']}]", m, out["frames"], tg, False, _given(out))
         if f:
             return f
     return None
@@ -1209,8 +1410,14 @@ def _expected_error(case, out):
     """an exception is acceptable only where the documented contract has one"""
     err = out.get("err") or out["ap"].get("err")
     mode = case.get("mode")
-    if err == "AssertionError" and mode in ("iou2d", "iou3d") and any(not (0.0 <= t <= 1.0) for t in case["thrs"]):
+    if err == "AssertionError" and mode in ("iou2d", "iou3d") and not iou_valid(case["thrs"]):
         return None
+    if err == "AssertionError" and case.get("via") == "score" and not all(iou_valid(t) for m in ("iou2d", "iou3d") for t in case["fam"][m]):
+        return None
+    if err == "KeyError" and case.get("dict"):
+        g = _given(out)  # a target label is no key of one of the dicts handed over
+        if g is None or any(t not in g[0] or t not in g[1] for t in case["targets"]):
+            return None
     if err == "IndexError" and len(case["thrs"]) < len(case["targets"]):
         return None
     if err == "AttributeError" and case.get("twod"):
@@ -1263,8 +1470,39 @@ def _scene_branches(case, out):
     return b
 
 
+def thr_branches(lists):
+    """histogram keys for the threshold values of a case"""
+    b = set()
+    for ts in lists:
+        vals = tfl(ts)
+        for t in vals:
+            b.add("thr:" + ("inf" if _isinf(t) else "huge" if t >= 1e200 else "zero" if t == 0 else "tiny" if 0 < t < 1e-200
+                            else "outside-iou" if not (0 <= t <= 1) and False else "ordinary"))
+        if len(set(vals)) > 1:
+            b.add("thr:differ-between-labels")
+    return sorted(b)
+
+
 def branches(case, out):
     b = []
+    if case["kind"] == "map":
+        b.extend(thr_branches([case["thrs"]] if "thrs" in case else [t for v in case["fam"].values() for t in v]))
+        if case.get("dict"):
+            d = case["dict"]
+            b.append("dict:" + ("free" if d["free"] else "by-targets") + (":filled" if d["fill"] and d["free"] else ""))
+            tg = [LID[t] for t in case["targets"]]
+            for key in ("rd", "nd"):
+                if key in out:
+                    ks = [k for k, _ in out[key] if k in tg]
+                    b.append(f"dict:{key}:" + ("target-order" if ks == tg else "target-missing" if len(ks) < len(tg) else "other-order")
+                             + (":extra-keys" if len(out[key]) > len(ks) else ""))
+        elif case["via"] in ("map", "score"):
+            b.append("dict:plain")
+        if case["via"] == "manager":
+            for key in ("crit", "pf"):
+                b.append(f"{key}-labels:" + ("other-order" if case.get(key) and case[key] != case["targets"] else "same-order"))
+    else:
+        b.extend(thr_branches([case["thrs"]]))
     if case["kind"] == "rank":
         n = len(case["items"])
         tag = "rank2d" if case.get("twod") else "long" if case.get("long") else "rank"
